@@ -24,7 +24,7 @@ def budget(tier):
 
 def floor(tier):
     return dict(min_conclusive=30 if tier == "quick" else 500, min_nontrivial=30 if tier == "quick" else 200,
-                classes=["moments", "memo", "algebra", "switch", "intrinsic", "pto3"], probes=["collect_elems", "memo_labels"], min_compared=2000)  # fmt: skip
+                classes=["moments", "memo", "algebra", "switch", "intrinsic", "pto3", "regrid"], probes=["collect_elems", "memo_labels"], min_compared=2000)  # fmt: skip
 
 
 def cases(tier, rng):
@@ -52,7 +52,7 @@ def cases(tier, rng):
             pts = cards.rand_points(rng, g["xgrid"], n=3, q2lo=3.0, q2hi=2e4)
             for p_, q2 in zip(pts, rng.permutation([0.75 * th["mc"] ** 2, 0.5 * (th["mc"] ** 2 + th["mb"] ** 2), 4.0 * th["mb"] ** 2])):
                 p_["Q2"] = float(q2)
-        out.append(dict(id=f"c05-{i}", mode=mode, kind=kind, heavy=heavy, grid=g, points=pts, memo_samples=[[int(rng.integers(0, 64)), int(rng.integers(0, 64))] for _ in range(10)], **cfg))
+        out.append(dict(id=f"c05-{i}", mode=mode, kind=kind, heavy=heavy, grid=g, points=pts, memo_samples=[[int(rng.integers(0, 64)), int(rng.integers(0, 64))] for _ in range(10)], regrid=bool(i % 4 == 2), **cfg))
     return out
 
 
@@ -169,6 +169,14 @@ def run_case(case):
         rec[(self.esf.x, self.esf.Q2)] = (self.nf, list(elems))
         return elems
 
+    if case.get("regrid"):
+        # the same card first on a grid with the same size, end points, degree and log mode but other interior nodes: a process-wide
+        # memo of splitting operators that cannot tell the two grids apart would now feed stale operators to the judged run
+        classes.add("regrid")
+        try:
+            yad.Runner(th, cards.observables({name: [dict(x=0.5, Q2=pts[0]["Q2"])]}, xgrid=cards.warp_grid(g["xgrid"]), deg=g["deg"], is_log=g["is_log"], **case["obs"])).get_result()
+        except ValueError:
+            pass
     cf.Combiner.collect_elems = spy
     try:
         runner = yad.Runner(th, ob)
